@@ -51,6 +51,7 @@ type Env struct {
 	allIDs    [][]string
 	replays   map[string]interface{}
 	distinct  map[string]bool
+	hangs     int
 }
 
 func (e *Env) Thorough() bool { return e.Tier == "thorough" }
